@@ -7,6 +7,7 @@ pub mod codec;
 pub mod guard;
 pub mod prng;
 pub mod report;
+pub mod schema;
 
 #[global_allocator]
 static ALLOC: guard::CountingAlloc = guard::CountingAlloc;
